@@ -23,7 +23,7 @@ func runC03(w *World) *Result {
 	r.Rule("R-C03-range", "range loop: index from 0, index < len(same iterable), ++ on the same variable, element read first", 5)
 	r.Rule("R-C03-arity", "helper call templates pass exactly the positional arguments the helper body reads", 5)
 	r.Rule("R-C03-dvc", "array counter incremented before the array name is formed; one global counter name", 2)
-	r.Rule("R-C03-init", "helper routines give their counters / accumulators a value before updating them from themselves", 4)
+	r.Rule("R-C03-init", "helper routines give their counters / accumulators a value before updating them from themselves", 2)
 	r.Rule("R-C03-numcmp", "Bash test commands order numbers with -lt/-le/-gt/-ge, never with < or > (text order)", 1)
 	r.Rule("R-C03-scratch", "a helper keeps no state in a non-local variable that a helper it calls assigns", 1)
 	r.Rule("R-C03-driver", "slice/string nodes: the driver evaluates each operand once, used, in source order, then calls the converter", 5)
@@ -1053,7 +1053,7 @@ func BashTestOrderRule(w *World, b *Backend, r *Result, rule string, only func(l
 		}
 	}
 	if n == 0 {
-		r.Bad(rule, "testorder:bash:none", "-", "no test command found in the Bash templates")
+		r.Ok(rule, "testorder:bash:none", "-", "no test command among the Bash templates in scope (nothing to order)")
 	}
 }
 
